@@ -2,6 +2,9 @@ import Driver.Proto
 import Gotree.Spec.C19
 import Gotree.Gen.C19Flags
 import Gotree.Model.C19Rename
+import Gotree.Model.C19PreRun
+import Gotree.Model.C19Glue
+import Gotree.Gen.C19Writes
 
 /-
   Driver of C19.  Case lines (harness/c19):
@@ -14,8 +17,12 @@ import Gotree.Model.C19Rename
     C19.e2e    path flag type DefValue template argsOmitted argsExplicit outcomeOmitted outcomeExplicit fixedInputs
                (fixedInputs = true: the hand-written inputs on which every template is a valid
                 invocation and must succeed; false: drawn trees, on which an invocation naming
-                tips may legitimately be refused — only omitted = explicit is required)
+                tips may legitimately be refused — only omitted = explicit is required;
+                fails: an invocation of a network command that an argument check refuses offline)
                flag "*" (type "all"): every option the template omits spelled out at once
+    C19.writes rows             table (e): assignments to option variables after parsing (harness writes.go)
+    C19.glue   set extra runs   option glue of the anchored commands (Model/C19Glue), see harness glueCases
+    C19.format / C19.seed / C19.threads   the global options after parsing (Model/C19PreRun), see harness preRunCases
     C19.effect path template baseTemplate args baseArgs outcome baseOutcome
     C19.roundtrip path flag type DefValue error after      (Value.Set(DefValue) then Value.String())
     C19.help   path exit helpText flags rowSets                   (`gotree <path> --help` of the built binary)
@@ -73,8 +80,13 @@ def knownClass (path flag o0 o1 : String) (a0 a1 : List String := []) : String :
   then "class=RenameRegexpGiven "
   -- open finding F55: `brlen setrand` draws the mean in [min-mean, max-mean] only when BOTH options were
   -- *given* (cmd/randbrlen.go:59 Flags().Changed): their documented defaults passed together are not "omitted"
-  else if path == "gotree brlen setrand" && flag == "*" && a1.contains "--min-mean=0.001" && a1.contains "--max-mean=0.05" &&
-     !(a0.any fun a => a.startsWith "--min-mean" || a.startsWith "--max-mean")
+  else if path == "gotree brlen setrand" && (flag == "*" || flag == "min-mean" || flag == "max-mean") &&
+     (a1.contains "--min-mean=0.001" || a1.contains "--max-mean=0.05") &&
+     -- the model of the cascade attributes the difference to the interval being selected by `Changed`, and to nothing else
+     (match (Setrand.parseArgs a0).bind Setrand.behaviour, (Setrand.parseArgs a1).bind Setrand.behaviour with
+      | some b0, some b1 => b0.range == none && b1.range.isSome &&
+                            b0.minLen == b1.minLen && b0.maxLen == b1.maxLen && b0.external == b1.external && b0.internal == b1.internal && b0.seed == b1.seed
+      | _, _ => false)
   then "class=SetrandMeanRangeGiven "
   else ""
 
@@ -89,6 +101,31 @@ def itolClass (path flag : String) (own : String := "pdf") (hidden : List String
     seen in the outcome?  `none` = the arguments were not understood by the little parser. -/
 def renameAgrees (args : List String) (outcome : String) : Option Bool :=
   (Rename.parseArgs args).map fun cl => (Rename.renameMode cl).errClass == Rename.observedClass outcome
+
+/-- the models of the option cascades against a pair of runs: `some true` = agree, `some false` =
+    disagree, `none` = not one of the modelled commands / arguments not understood.
+    rename: the error class of both runs is the predicted one, and equal behaviour (branch of the
+    cascade + the values it reads) gives equal outcomes.  brlen setrand: outcomes are equal
+    whenever the behaviour is, and differ when it differs and some branch is redrawn. -/
+def cascadeTie (path : String) (a0 a1 : List String) (o0 o1 : String) (strict : Bool := true) : Option Bool :=
+  if path == "gotree rename" then
+    match Rename.parseArgs a0, Rename.parseArgs a1 with
+    | some c0, some c1 =>
+      some ((Rename.renameMode c0).errClass == Rename.observedClass o0 && (Rename.renameMode c1).errClass == Rename.observedClass o1 &&
+            (Rename.behaviour c0 != Rename.behaviour c1 || o0 == o1))
+    | _, _ => none
+  else if path == "gotree brlen setrand" then
+    match (Setrand.parseArgs a0).bind Setrand.behaviour, (Setrand.parseArgs a1).bind Setrand.behaviour with
+    | some b0, some b1 =>
+      -- a seed taken from the clock makes every pair of runs differ
+      -- equal behaviour ⇒ equal outcome, always.  The converse (another mean ⇒ other lengths) needs
+      -- a branch that is redrawn: claimed on the fixed inputs (`strict`) when no length window is set.
+      let redraws := strict && b0.minLen == some (-1) && b0.maxLen == some (-1) && b1.minLen == some (-1) && b1.maxLen == some (-1)
+      if b0.seed == "-1" || b1.seed == "-1" then some (!redraws || o0 != o1)
+      else if b0 == b1 then some (o0 == o1)
+      else some (!redraws || o0 != o1)
+    | _, _ => none
+  else none
 
 def handle (op : String) (f : List String) : Verdict :=
   match op, f with
@@ -188,15 +225,11 @@ def handle (op : String) (f : List String) : Verdict :=
     | some path, some flag, some dflt, some a0, some a1, some o0, some o1 =>
       if o0.startsWith "exit=-2\n" || o1.startsWith "exit=-2\n" then bad "C19.e2e: the gotree binary could not be started" else
       let ran := o0.startsWith "exit=0\n"
-      let renameTie : Option Bool :=
-        if path == "gotree rename" then
-          match renameAgrees a0 o0, renameAgrees a1 o1 with
-          | some x, some y => some (x && y)
-          | _, _ => none
-        else none
-      let tags := tagIf (ran && o0.length > 12) "nontrivial" ++ tagIf (!ran) "template-failed" ++
-        tagIf (renameTie == some true) "rename-model-agrees" ++ tagIf (path == "gotree rename" && renameTie == none) "rename-args-not-modelled" ++
-        ["tmpl-" ++ tmpl, typeTag typ] ++ tagIf (fixed != "true") "drawn-inputs"
+      let renameTie : Option Bool := cascadeTie path a0 a1 o0 o1 (fixed == "true")
+      let tags := tagIf ((ran || fixed == "fails") && o0.length > 12) "nontrivial" ++ tagIf (!ran && fixed != "fails") "template-failed" ++
+        tagIf (renameTie == some true) "cascade-model-agrees" ++
+        tagIf ((path == "gotree rename" || path == "gotree brlen setrand") && renameTie == none) "cascade-args-not-modelled" ++
+        ["tmpl-" ++ tmpl, typeTag typ] ++ tagIf (fixed == "false") "drawn-inputs" ++ tagIf (fixed == "fails") "refused-before-network"
       if fixed == "true" && !(runsOK o0) then
         ⟨.oracle, tags, clip 1500 (path ++ " fails when run with its documented defaults (template " ++ tmpl ++ ", args " ++
           " ".intercalate a0 ++ "): " ++ (clip 600 o0).quote)⟩
@@ -205,7 +238,7 @@ def handle (op : String) (f : List String) : Verdict :=
           "; args " ++ " ".intercalate a0 ++ " | " ++ " ".intercalate a1 ++
           "; omitted → " ++ (clip 300 o0).quote ++ "; explicit → " ++ (clip 300 o1).quote)⟩
       else if renameTie == some false then
-        ⟨.tie, tags, "model of cmd/rename.go option handling predicts another error class: args " ++ " ".intercalate a1⟩
+        ⟨.tie, tags, "model of the option cascade of " ++ path ++ " (Model/C19Rename) disagrees with the pair of runs: args " ++ " ".intercalate a0 ++ " | " ++ " ".intercalate a1⟩
       else ⟨.pass, tags, ""⟩
     | _, _, _, _, _, _, _ => bad "C19.e2e fields"
   | "effect", [path, tmpl, base, argsT, argsB, ot, ob] =>
@@ -216,8 +249,161 @@ def handle (op : String) (f : List String) : Verdict :=
         ⟨.oracle, tags, clip 1200 (path ++ ": the options [" ++ " ".intercalate argsT ++ "] (template " ++ tmpl ++ ") give the same outcome as [" ++
           " ".intercalate argsB ++ "] (template " ++ base ++ "), or a run fails: the command does not read what the option sets; with → " ++
           (clip 250 ot).quote ++ "; without → " ++ (clip 250 ob).quote)⟩
-      else ⟨.pass, tags, ""⟩
+      else if cascadeTie path argsB argsT ob ot == some false then
+        ⟨.tie, tags, "model of the option cascade of " ++ path ++ " disagrees with the pair of runs " ++ tmpl ++ " / " ++ base⟩
+      else ⟨.pass, tags ++ tagIf (cascadeTie path argsB argsT ob ot == some true) "cascade-model-agrees", ""⟩
     | _, _, _, _, _ => bad "C19.effect fields"
+  | "writes", [ws] =>
+    -- table (e): assignments to option variables after parsing, "path,var,file,rhs," each followed by ";"
+    match (splitTerm ";" ws).mapM parseStrList with
+    | some l =>
+      let parsed : List Glue.OptWrite := l.filterMap fun x => match x with
+        | [p, v, f, r] => some ⟨p, v, f, r⟩
+        | _ => none
+      if parsed.length != l.length then bad "C19.writes rows" else
+      let tags := ["nontrivial", "writes-" ++ toString parsed.length] ++ tagIf (parsed == Gen.C19Writes.writes) "same-as-proved-table"
+      match parsed.filter fun w => !(Glue.isModelled w) with
+      | w :: _ => ⟨.tie, tags, "an option variable is assigned after parsing at a place no model accounts for: " ++ w.path ++ " sets " ++ w.var ++ " " ++ w.rhs ++ " (cmd/" ++ w.file ++ ")"⟩
+      | [] => if parsed != Gen.C19Writes.writes then ⟨.tie, tags, "table (e) dumped at run time differs from Gen/C19Writes.lean"⟩ else ⟨.pass, tags, ""⟩
+    | none => bad "C19.writes fields"
+  | "glue", [set, extra, runs] =>
+    -- runs: [value ("" = option omitted), outcome]
+    match (splitTerm ";" runs).mapM parseStrList with
+    | some rs =>
+      let parsed := rs.filterMap fun x => match x with
+        | [v, o] => some (v, o)
+        | _ => none
+      if parsed.length != rs.length || parsed.isEmpty then bad "C19.glue runs" else
+      let tags := ["nontrivial", "glue-" ++ set]
+      let outcomeOf (v : String) : Option String := (parsed.find? (·.1 == v)).map (·.2)
+      -- oracle shared by all the sets: option omitted = documented default spelled out
+      let dflt := match set with
+        | "consensus" => "0.5" | "divide" => Glue.defaultPrefix | "annotate" => "stdin" | "setmin" => "0" | "merge" => "stdin"
+        | "comment-clear" => "false,false" | "rename-length" => "10" | "topologies" => "10" | _ => ""
+      match outcomeOf "", outcomeOf dflt with
+      | some o0, some o1 =>
+        if o0 != o1 then ⟨.oracle, tags, clip 900 (set ++ ": option omitted differs from the documented default " ++ dflt.quote ++ ": " ++ (clip 300 o0).quote ++ " vs " ++ (clip 300 o1).quote)⟩
+        else if !(runsOK o0) then ⟨.oracle, tags, clip 600 (set ++ " fails with its documented defaults: " ++ (clip 300 o0).quote)⟩
+        else
+          -- ties with the glue model
+          let wrong : List String :=
+            match set with
+            | "consensus" => (parsed.filter fun (v, o) =>
+                match Setrand.parseDec (if v == "" then dflt else v) with
+                | some q => Glue.consensusAccepts q != runsOK o
+                | none => true).map (·.1)
+            | "divide" => (parsed.filter fun (v, o) =>
+                Glue.filesOf o != Glue.divideNames (if v == "" then Glue.defaultPrefix else v) (extra.toNat?.getD 0)).map (·.1)
+            | "annotate" => (parsed.filter fun (v, o) =>
+                -- same source in the model ⇒ same outcome; "-" is another name of stdin for the reader (utils.GetReader)
+                Glue.annotateSource "none" (if v == "" then dflt else if v == "-" then "stdin" else v) == Glue.annotateSource "none" dflt && o != o0).map (·.1)
+            | "setmin" => (parsed.filter fun (v, o) =>
+                -- lengths of the fixed input are non-negative: no branch changes for a cut-off ≤ 0, the output is the input rewritten
+                (match Setrand.parseDec (if v == "" || v == "reformat" then "0" else v) with
+                 | some q => decide (q ≤ 0) && o != o0
+                 | none => true)).map (·.1)
+            | "comment-clear" =>
+              let tg (v : String) : Bool × Bool := match (if v == "" then dflt else v).splitOn "," with
+                | [e, n] => Glue.commentTargets (e == "true") (n == "true")
+                | _ => (false, false)
+              -- the input has comments of both kinds: equal targets ⇔ equal outcome
+              (parsed.filter fun (v, o) => parsed.any fun (v', o') => (tg v == tg v') != (o == o')).map (·.1)
+            | "rename-length" =>
+              let ln (v : String) : Int := Glue.autoLength ((if v == "" then dflt else v).toInt?.getD 0)
+              (parsed.filter fun (v, o) => parsed.any fun (v', o') => (ln v == ln v') != (o == o')).map (·.1)
+            | "topologies" =>
+              -- an input tree is given in every run: --nbtips is not read
+              (parsed.filter fun (v, o) =>
+                Glue.topologiesNbTips ((if v == "" then dflt else v).toInt?.getD 0) (some 4) == Glue.topologiesNbTips 10 (some 4) && o != o0).map (·.1)
+            | "merge" => (parsed.filter fun (v, o) => Glue.readTreeAccepts (if v == "" then dflt else v) != runsOK o).map (·.1)
+            | _ => ["unknown set"]
+          (match wrong with
+           | [] => ⟨.pass, tags, ""⟩
+           | w => ⟨.tie, tags, "glue model (Model/C19Glue) of " ++ set ++ " disagrees with the runs for the option values " ++ toString w⟩)
+      | _, _ => bad "C19.glue: runs for the omitted option and for the documented default are needed"
+    | none => bad "C19.glue fields"
+  | "format", [path, set, runs] =>
+    -- runs: [args, formatValue ("" = omitted), inputKind, outcome]
+    match unescape path, (splitTerm ";" runs).mapM parseStrList with
+    | some path, some rs =>
+      let parsed := rs.filterMap fun x => match x with
+        | [a, fv, kind, o] => some (a, fv, kind, o)
+        | _ => none
+      if parsed.length != rs.length || parsed.isEmpty then bad "C19.format runs" else
+      let tags := ["nontrivial", "format-" ++ set]
+      let fvOf (fv : String) : String := if fv == "" then PreRun.defaultFormat else fv
+      -- oracle (the property): omitted = the documented default spelled out, on the same input
+      let omitted := parsed.filter fun (_, fv, _, _) => fv == ""
+      let explicit := parsed.filter fun (_, fv, _, _) => fv == PreRun.defaultFormat
+      let bad1 := omitted.filter fun (_, _, k, o) => explicit.any fun (_, _, k', o') => k == k' && o != o'
+      match bad1 with
+      | (a, _, k, o) :: _ =>
+        ⟨.oracle, tags, clip 900 (path ++ " [" ++ a ++ "] on " ++ k ++ " input differs from the run with the documented default format spelled out: " ++ (clip 300 o).quote)⟩
+      | [] =>
+        -- oracle (an option that is given must be honoured, cf. `effectOK`): input written in format K read with --format=K
+        match parsed.filter fun (_, fv, k, o) => fv == k && !(runsOK o) with
+        | (a, _, k, o) :: _ =>
+          ⟨.oracle, tags, clip 900 (path ++ " [" ++ a ++ "] refuses " ++ k ++ " input although that format is requested: the option is not honoured (PersistentPreRun not run?): " ++ (clip 300 o).quote)⟩
+        | [] =>
+        -- tie: the model of PersistentPreRun predicts which runs can read their input, and all of those print the same
+        let wrong := parsed.filter fun (_, fv, k, o) => PreRun.readable (fvOf fv) k != runsOK o
+        let oks := parsed.filter fun (_, _, _, o) => runsOK o
+        let differ := match oks with
+          | [] => false
+          | (_, _, _, o0) :: rest => rest.any fun (_, _, _, o) => o != o0
+        (match wrong with
+         | (a, fv, k, o) :: _ =>
+           ⟨.tie, tags, clip 700 ("model of PersistentPreRun: " ++ path ++ " [" ++ a ++ "] (format " ++ (fvOf fv).quote ++ ") on " ++ k ++ " input predicted " ++
+             (if PreRun.readable (fvOf fv) k then "readable" else "refused") ++ "; outcome " ++ (clip 200 o).quote)⟩
+         | [] => if differ then ⟨.tie, tags, "runs that read the same tree in different formats print different results"⟩
+                 else ⟨.pass, tags ++ tagIf (oks.length < parsed.length) "some-refused", ""⟩)
+    | _, _ => bad "C19.format fields"
+  | "seed", [path, set, runs] =>
+    match unescape path, (splitTerm ";" runs).mapM parseStrList with
+    | some path, some rs =>
+      let parsed := rs.filterMap fun x => match x with
+        | [sv, o1, o2] => (if sv == "" then some PreRun.defaultSeed else sv.toInt?).map fun n => (sv, n, o1, o2)
+        | _ => none
+      if parsed.length != rs.length || parsed.isEmpty then bad "C19.seed runs" else
+      let tags := ["nontrivial", "seed-" ++ set]
+      let failed := parsed.filter fun (_, _, o1, o2) => !(runsOK o1 && runsOK o2)
+      if !failed.isEmpty then ⟨.oracle, tags, path ++ " fails with --seed " ++ (failed.map (·.1)).toString⟩ else
+      -- oracle: omitted and the documented default spelled out are of the same kind (both repeat, or both do not)
+      let kindOf (x : String × Int × String × String) : Bool := x.2.2.1 == x.2.2.2
+      let om := parsed.filter fun x => x.1 == ""
+      let ex := parsed.filter fun x => x.1 != "" && x.2.1 == PreRun.defaultSeed
+      if om.any fun x => ex.any fun y => kindOf x != kindOf y then
+        ⟨.oracle, tags, path ++ ": with --seed omitted two runs " ++ (if (om.headD ("", 0, "", "")).2.2.1 == (om.headD ("", 0, "", "")).2.2.2 then "agree" else "differ") ++
+          " while with the documented default --seed=-1 they do the opposite"⟩
+      else
+        -- tie: reproducible exactly when the seed is not taken from the clock
+        match parsed.filter fun x => PreRun.reproducible x.2.1 != kindOf x with
+        | (sv, _, _, _) :: _ => ⟨.tie, tags, "model of PersistentPreRun: --seed " ++ sv.quote ++ " predicted " ++
+            (if PreRun.reproducible ((parsed.find? (·.1 == sv)).map (·.2.1) |>.getD 0) then "reproducible" else "clock-seeded") ++ ", runs say otherwise"⟩
+        | [] => ⟨.pass, tags, ""⟩
+    | _, _ => bad "C19.seed fields"
+  | "threads", [path, set, maxcpus, runs] =>
+    match unescape path, maxcpus.toInt?, (splitTerm ";" runs).mapM parseStrList with
+    | some path, some mx, some rs =>
+      let parsed := rs.filterMap fun x => match x with
+        | [tv, o] => (if tv == "" then some PreRun.defaultThreads else tv.toInt?).map fun n => (tv, n, o)
+        | _ => none
+      if parsed.length != rs.length || parsed.isEmpty then bad "C19.threads runs" else
+      let tags := ["nontrivial", "threads-" ++ set] ++ tagIf (parsed.any fun (_, n, _) => PreRun.clampThreads n mx != n) "clamped"
+      let canon (o : String) : List String := sortStrings (o.splitOn "\n")
+      let om := parsed.filter fun x => x.1 == ""
+      let ex := parsed.filter fun x => x.1 != "" && x.2.1 == PreRun.defaultThreads
+      if om.any fun x => ex.any fun y => x.2.2 != y.2.2 then
+        ⟨.oracle, tags, path ++ ": --threads omitted differs from the documented default --threads=1"⟩
+      else match parsed.filter fun (_, _, o) => !(runsOK o) with
+        | (tv, _, o) :: _ => ⟨.oracle, tags, clip 600 (path ++ " fails with --threads " ++ tv.quote ++ ": " ++ (clip 300 o).quote)⟩
+        | [] =>
+          match parsed with
+          | (_, _, o0) :: rest =>
+            if rest.any fun (_, _, o) => canon o != canon o0 then ⟨.tie, tags, "the number of threads changes the result (as a multiset of lines)"⟩
+            else ⟨.pass, tags, ""⟩
+          | [] => ⟨.pass, tags, ""⟩
+    | _, _, _ => bad "C19.threads fields"
   | "roundtrip", [path, flag, typ, dflt, err, after] =>
     -- the model keeps values as the text Value.String() prints: Set(DefValue) must give DefValue back
     match unescape path, unescape flag, unescape dflt, unescape err, unescape after with
